@@ -260,7 +260,8 @@ class Prop(object):
                 r.outcomes['%s:%s' % ('right' if right else 'wrong', 'loaded' if loaded else 'rejected')] += 1
                 if right and not loaded:
                     r.viol('wrongkind', {'kind': 'right-kind-rejected', 'obj': name}, case, '%s is rejected by %s.from_blob' % (name, lname))
-                if not right and loaded and not (lname == 'PGPMessage' and name == 'detached signature') and not (lname == 'PGPSignature' and name == 'cleartext message'):
+                # (a cleartext message's armored block *is* a SIGNATURE block: PGPSignature reading the signature out of it is the right kind)
+                if not right and loaded and not (lname == 'PGPSignature' and name == 'cleartext message'):
                     r.viol('wrongkind', {'kind': 'wrong-kind-accepted', 'loader': lname, 'obj': name}, case,
                            '%s.from_blob accepted an armored %s (block label %s)' % (lname, name, label))
         r.samples.append({'loaders': sorted(loaders)})
